@@ -476,6 +476,31 @@ func (w *bWorld) genPatches(create bool) []workload.PatchDesc {
 	return out
 }
 
+// genOpaque draws an opaque document (the client library turns it into patches itself).
+func (w *bWorld) genOpaque() (string, []workload.PatchDesc) {
+	k := w.k
+	keys := workload.KeyIDs()[:1+k.Draw(3, "opaque.keys")]
+
+	var svcs, uris []string
+
+	if k.Draw(2, "opaque.svc") == 0 {
+		svcs = workload.SvcIDs()[:1+k.Draw(2, "opaque.svcs")]
+	}
+
+	if k.Draw(3, "opaque.aka") == 0 {
+		uris = []string{"https://a.example/1"}
+	}
+
+	note := ""
+	if k.Draw(3, "opaque.note") == 0 {
+		note = "note-" + w.nextMark()
+	}
+
+	w.k.Count("probe:opaque-document-request")
+
+	return workload.OpaqueDoc(keys, svcs, uris, note, w.nextMark())
+}
+
 // ---------------------------------------------------------------- clients
 
 func (w *bWorld) post(req []byte) (int, []byte) {
@@ -561,8 +586,14 @@ func (w *bWorld) clientStep(d *bDID) {
 		pd := w.genPatches(true)
 		patches, _ := workload.ToPatches(pd)
 		origin := "origin-" + w.nextMark()
+		opaque := ""
 
-		req, err := workload.Build(&workload.OpSpec{Type: operation.TypeCreate, Hash: hash, NextUpdate: d.Upd, NextRecovery: d.Rec, Patches: patches, AnchorOrigin: origin})
+		if k.Draw(3, "client.opaque") == 0 {
+			opaque, pd = w.genOpaque()
+			patches = nil
+		}
+
+		req, err := workload.Build(&workload.OpSpec{Type: operation.TypeCreate, Hash: hash, NextUpdate: d.Upd, NextRecovery: d.Rec, Patches: patches, OpaqueDocument: opaque, AnchorOrigin: origin})
 		if err != nil {
 			w.fail("HARNESS", "client-build", err.Error())
 
@@ -649,11 +680,18 @@ func (w *bWorld) clientStep(d *bDID) {
 		spec.AnchorOrigin = "origin-" + w.nextMark()
 		m.Origin = spec.AnchorOrigin.(string)
 		pd = w.genPatches(false)
+
+		if k.Draw(3, "client.opaque") == 0 {
+			spec.OpaqueDocument, pd = w.genOpaque()
+		}
 	default:
 		spec.SignKey = d.Rec
 	}
 
-	spec.Patches, _ = workload.ToPatches(pd)
+	if spec.OpaqueDocument == "" {
+		spec.Patches, _ = workload.ToPatches(pd)
+	}
+
 	m.Patches = pd
 	m.RevealCommit = spec.SignKey.Commitment(d.Hash)
 
